@@ -69,7 +69,7 @@ func join(parts ...string) string {
 
 // programSource is the program of a kind in a storage; sfx replaces §, imp is the import path of x.
 func programSource(k callKind, st storage, sfx, imp, fn string, gc bool) string {
-	c := cx{T: k.typ, E: k.expr, A: k.args, res: k.res}
+	c := cx{T: k.typ, E: k.expr, A: k.args, res: k.res, N: max(k.calls, 1)}
 	decl := k.decl
 	if gc && k.gcExpr != "" {
 		c.T, c.E, decl = k.gcTyp, k.gcExpr, k.gcDecl
@@ -108,7 +108,7 @@ func afterExtends(src, ins string) string {
 
 // templateFiles is the template of a kind in a storage.
 func templateFiles(k callKind, st storage, mode int) (string, map[string]string) {
-	c := cx{T: k.typ, E: k.expr, A: k.args, res: k.res}
+	c := cx{T: k.typ, E: k.expr, A: k.args, res: k.res, N: max(k.calls, 1)}
 	var index string
 	extra := map[string]string{}
 	for n, s := range k.extra {
@@ -343,7 +343,7 @@ func runCallable(cc callCase) (outcome, string) {
 	crec.reset()
 	o := runReal(cc.cs)
 	if cc.st.goStmt && o.built && !o.hostPanic && o.err == nil {
-		crWait()
+		crWait(max(cc.kind.calls, 1))
 	}
 	tr := crec.trace()
 	if o.built && !o.hostPanic && o.errType == "*scriggo.PanicError" {
